@@ -227,7 +227,7 @@ def generate(ctx):
         elif n == 4 and not ctx.thorough():
             dags = rng.sample(dags, 150)
         for nodes in dags:
-            dag = {"nodes": nodes, "keys": rng.choice(["str", "tuple", "int"]), "style": rng.choice(["legacy", "spec", "mixed"])}
+            dag = {"nodes": nodes, "keys": rng.choice(["str", "tuple", "int", "falsy"]), "style": rng.choice(["legacy", "spec", "mixed"])}
             for req in ([n - 1], list(range(n)), rng.choice([[], [[], []], [[], [0]]])):
                 yield "exh", {"dag": dag, "req": req, "nw": rng.choice([1, 2, 3]), "cs": rng.choice([1, 2, -1]),
                               "fails": {}, "seed": 0, "bias": None, "limit": 300}
